@@ -760,6 +760,186 @@ func runC09(c *fw.Ctx) {
 	})
 	c.Cases("scenarios", c.N(2000, 800000), false, func(i int, r *rng.R) { c09Case(c, r, -1, false) })
 	c.Cases("paging", c.N(60, 6000), false, func(i int, r *rng.R) { c09Paging(c, r) })
+	c.Cases("paging-objects", c.N(40, 4000), false, func(i int, r *rng.R) { c09PagingObjects(c, r) })
+}
+
+// c09PagingObjects: the same for objects - a long run of Pluck / Merge / Clone / Map results and Keys / Values lists
+// from one or two receivers, each written to at once; the last ten results, the receivers and a few kept Dict /
+// NativeDict / Keys exports stay what they were.
+func c09PagingObjects(c *fw.Ctx, r *rng.R) {
+	var trace []string
+	in := func() string {
+		t := trace
+		if len(t) > 60 {
+			t = t[len(t)-60:]
+		}
+		return "paging over objects (the last steps):\n  " + strings.Join(t, "\n  ")
+	}
+	guard(c, in, func() {
+		type page struct {
+			name string
+			v    any
+			last any
+		}
+		var live []*page
+		mk := func(name string, v any) *page {
+			p := &page{name, v, top(v)}
+			live = append(live, p)
+			return p
+		}
+		type keptExport struct {
+			desc string
+			val  any
+			text string
+		}
+		var exports []keptExport
+		nested := at.NewList("n")
+		var recvs []*page
+		for k := r.Range(1, 2); k > 0; k-- {
+			o := at.NewObject()
+			for j := r.Range(3, 12); j > 0; j-- {
+				var v any = j
+				if r.Chance(1, 6) {
+					v = nested
+				}
+				o.Set(fmt.Sprintf("k%d", j), v)
+			}
+			p := mk(fmt.Sprintf("recv%d", k), o)
+			recvs = append(recvs, p)
+			trace = append(trace, fmt.Sprintf("%s = %s", p.name, spec.Trunc(o.String(), 160)))
+		}
+		check := func(except *page, after string) bool {
+			for _, p := range live {
+				if p == except {
+					continue
+				}
+				if now := top(p.v); !sameTop(p.last, now) {
+					c.Violate("storage-shared-between-parties", in(), fmt.Sprintf("%s unchanged by %s: %s", p.name, after, showTop(p.last)), showTop(now))
+					return false
+				}
+			}
+			return true
+		}
+		show := func(e any) string {
+			// maps print in sorted key order under %v
+			return fmt.Sprintf("%v", e)
+		}
+		rounds := r.Range(60, 120)
+		for round := 0; round < rounds; round++ {
+			src := recvs[r.Intn(len(recvs))]
+			if r.Chance(1, 3) {
+				for tries := 0; tries < 4; tries++ {
+					if cand := live[r.Intn(len(live))]; cand != nil {
+						if _, ok := cand.v.(at.Object); ok {
+							src = cand
+							break
+						}
+					}
+				}
+			}
+			so := src.v.(at.Object)
+			var res any
+			var desc string
+			drive.Protect(func() {
+				keys := so.Keys().StringSlice()
+				switch op := r.Intn(7); {
+				case op <= 1 && len(keys) > 0:
+					sel := []string{keys[r.Intn(len(keys))], keys[r.Intn(len(keys))]}
+					res, desc = so.Pluck(sel...), fmt.Sprintf("%s.Pluck(%q)", src.name, sel)
+				case op == 2:
+					res, desc = so.Merge(at.NewObject("round", round)), src.name+".Merge({round})"
+				case op == 3:
+					res, desc = so.Clone(), src.name+".Clone()"
+				case op == 4:
+					res, desc = so.MapInts(func(x int) any { return x + 1 }), src.name+".MapInts(+1)"
+				case op == 5:
+					res, desc = so.Keys(), src.name+".Keys()"
+				default:
+					res, desc = so.Values(), src.name+".Values()"
+				}
+			})
+			if res == nil {
+				continue
+			}
+			name := fmt.Sprintf("p%d", round)
+			trace = append(trace, name+" = "+desc)
+			c.Count("pages_taken")
+			if !check(nil, "taking "+name+" = "+desc) {
+				return
+			}
+			p := mk(name, res)
+			var wdesc string
+			drive.Protect(func() {
+				switch x := res.(type) {
+				case at.Object:
+					switch r.Intn(3) {
+					case 0:
+						x.Set("+"+name, round)
+						wdesc = "Set(new key)"
+					case 1:
+						x.SetTF(".+"+name+"#1", round)
+						wdesc = "SetTF(new key, padded list)"
+					default:
+						x.Set("+"+name, 1, "++"+name, 2).Unset("++" + name)
+						wdesc = "Set x2, Unset"
+					}
+				case at.List:
+					x.Add("+" + name)
+					wdesc = "Add"
+				}
+			})
+			p.last = top(res)
+			trace = append(trace, name+"."+wdesc)
+			if !check(p, name+"."+wdesc) {
+				return
+			}
+			if r.Chance(1, 3) {
+				var e any
+				var edesc string
+				drive.Protect(func() {
+					switch x := res.(type) {
+					case at.Object:
+						if r.Bool() {
+							e, edesc = x.Dict(), name+".Dict()"
+						} else {
+							e, edesc = x.NativeDict(), name+".NativeDict()"
+						}
+					case at.List:
+						e, edesc = x.Slice(), name+".Slice()"
+					}
+				})
+				if e != nil {
+					exports = append(exports, keptExport{edesc, e, show(e)})
+					if len(exports) > 8 {
+						exports = exports[len(exports)-8:]
+					}
+				}
+			}
+			for _, k := range exports {
+				if now := show(k.val); now != k.text {
+					c.Violate("storage-shared-between-parties", in(), fmt.Sprintf("the value returned by %s stays what it was: %s", k.desc, k.text), now)
+					return
+				}
+			}
+			if len(live) > len(recvs)+10 {
+				old := live[len(recvs)]
+				drive.Protect(func() {
+					switch x := old.v.(type) {
+					case at.Object:
+						if r.Bool() {
+							x.Clear()
+						} else {
+							x.Unset(x.Keys().StringSlice()...)
+						}
+					case at.List:
+						x.Clear()
+					}
+				})
+				live = append(live[:len(recvs):len(recvs)], live[len(live)-10:]...)
+			}
+		}
+		c.Distinct(in())
+	})
 }
 
 // c09Paging: a long run of small derived results (pages cut by SubList, Concat results, clones, filtered copies) taken
